@@ -82,6 +82,7 @@ Progs(asgs, grds, anns, ina, ing, a1) ==
       Wh1s == { While(g, i, b) : g \in ing, i \in anns, b \in ina }
       Wh2 == { While(g, i, SeqC(a, b)) : g \in ing, i \in anns, a \in ina, b \in ina }
       SeqWh == { SeqC(a, While(g, i, b)) : a \in ina, g \in ing, i \in anns, b \in ina }
+      WhSeq == { SeqC(While(g, i, b), a) : g \in ing, i \in anns, b \in ina, a \in ina }
       WhIf == { While(g, i, If(h, a, Skip)) : g \in ing, h \in ing, i \in anns, a \in ina }
       IfWh == { If(h, While(g, i, a), b) : h \in ing, g \in ing, i \in anns, a \in ina, b \in {a1, Skip} }
       \* nesting 3 (and 4 when Deep)
@@ -90,7 +91,7 @@ Progs(asgs, grds, anns, ina, ing, a1) ==
       N4 == IF Deep THEN { SeqC(w, If(h, SeqC(a, b), Skip)) : w \in Wh1s, h \in ing, a \in ina, b \in ina }
                           \cup { If(h, SeqC(a, While(g, i, If(h, b, Skip))), b) : h \in ing, g \in ing, i \in anns, a \in ina, b \in ina }
             ELSE {}
-  IN Base \cup Seqs \cup Ifs \cup SeqIf \cup Wh1 \cup Wh2 \cup SeqWh \cup WhIf \cup IfWh \cup N3 \cup N4
+  IN Base \cup Seqs \cup Ifs \cup SeqIf \cup Wh1 \cup Wh2 \cup SeqWh \cup WhSeq \cup WhIf \cup IfWh \cup N3 \cup N4
 IAnn == { IBoxed(a) : a \in Take(IAssSeq, NAnn) }
 NAnn2 == { NBoxed(a) : a \in Take(NAssSeq, NAnn) }
 IProgs == Progs(Take(IAsgSeq, NAsg), Take(IGrdSeq, NGrd), IAnn, Take(IAsgSeq, NInA), Take(IGrdSeq, NInG), IAsgSeq[1])
@@ -105,9 +106,10 @@ BoxD(d) == IF d = "int" THEN BoxOf(IntLo, IntHi) ELSE BoxOf(NatLo, NatHi)
 RefHold(t) == \A vc \in RefVCs(t.pre, t.prog, t.post) : HoldsOn(vc, BoxD(t.dom))
 RefGuarded(t) == \A vc \in RefVCs(t.pre, t.prog, t.post) :
                     Guarded(vc, IF t.dom = "int" THEN IntLo ELSE NatLo, IF t.dom = "int" THEN IntHi ELSE NatHi, t.dom = "int")
-\* the universe, each triple flagged with the reference verdict "all conditions hold" (an input-selection hint for
+\* the universe, each triple flagged with the number of reference conditions that fail (an input-selection hint for
 \* the driver's sampling of natural-number triples; verdicts on events are computed by the trace specification)
-Flagged == { [t |-> t, valid |-> RefHold(t)] : t \in ITriples \cup NTriples }
+RefFailing(t) == Cardinality({ vc \in RefVCs(t.pre, t.prog, t.post) : ~HoldsOn(vc, BoxD(t.dom)) })
+Flagged == { [t |-> t, nfail |-> RefFailing(t)] : t \in ITriples \cup NTriples }
 
 \* ---------------------------------------------------------------- the machine
 \* A state keeps what execution and the properties need: the program without its annotations (execution ignores
@@ -131,15 +133,15 @@ EqGuards(c) == CASE c[1] \in {"skip", "asg"} -> TRUE
                  [] c[1] = "if" -> c[2][1] \in {"==", "!="} /\ EqGuards(c[3]) /\ EqGuards(c[4])
                  [] c[1] = "while" -> c[2][1] \in {"==", "!="} /\ EqGuards(c[4])
 SemVectors == UNION { { [prog |-> c, s0 |-> s0_] : s0_ \in { s1 \in BoxOf(0, 2) : Run(c, s1)[1] = "ok" } } : c \in { c \in NProgs : EqGuards(c) } }
-Emit(all) == /\ LET vs == SetToSeq({ [dom |-> f.t.dom, prog |-> f.t.prog, pre |-> f.t.pre, post |-> f.t.post, valid |-> f.valid] : f \in all })
+Emit(all) == /\ LET vs == SetToSeq({ [dom |-> f.t.dom, prog |-> f.t.prog, pre |-> f.t.pre, post |-> f.t.post, nfail |-> f.nfail] : f \in all })
                   IN ndJsonSerialize(IOEnv.VECTOR_FILE, vs)
              /\ ndJsonSerialize(IOEnv.VECTOR_FILE_SEM, SetToSeq(SemVectors))
              /\ PrintT(<<"C20stats", Cardinality(ITriples), Cardinality(NTriples), Cardinality(SemVectors),
-                         Cardinality({ f \in all : f.valid }), Cardinality({ f \in all : f.valid /\ HasLoop(f.t.prog) })>>)
+                         Cardinality({ f \in all : f.nfail = 0 }), Cardinality({ f \in all : f.nfail = 0 /\ HasLoop(f.t.prog) })>>)
 Init == LET all == Flagged IN
         \/ /\ st = "emit" /\ prog = Skip /\ post = True /\ s0 = ZeroStore /\ s = ZeroStore /\ kont = <<>> /\ Emit(all)
         \/ /\ st = "run"
-           /\ \E f \in { g \in all : g.valid } :
+           /\ \E f \in { g \in all : g.nfail = 0 } :
                  /\ prog = Strip(f.t.prog) /\ post = f.t.post
                  /\ s0 \in { s1 \in BoxD(f.t.dom) : EvalB(f.t.pre, s1) }
            /\ s = s0 /\ kont = <<prog>>
